@@ -141,6 +141,21 @@ def analyse_iter_all(run, rule, model, fi, list_param, mapping_param, what, dept
         its = [show(h.loop_iter_term(x)) for x in h.loops]
         run.violation(rule, fi.qual, "no loop iterates the parameter `%s` itself (loops iterate: %s): elements may be skipped, reordered or repeated" % (list_param, ", ".join(its) or "none"), fi.loc())
         return None
+    # the walk is not bypassed: every non-raising way out of the helper goes through the loop over the list, unless
+    # the list is known to be empty on it (``if not contracts: return None`` skips nothing)
+    it_nodes = [p for k, p in outer[0].pred if p.kind == "iter"]
+    if it_nodes:
+        atoms = [a for (nid, k), (kn, _at) in h.gg.edge_facts.items() for a, pol in kn if strip_sites(a) == lp]
+        drop = set()
+        for a in atoms:
+            drop |= set(h.gg.edges_where((a, False)))
+        block = set(x.id for x in it_nodes)
+        seen = h.gg.reach([h.cfg.entry], lambda n, k, t: t.id in block or (n.id, k) in drop, None, False)
+        if h.cfg.exit_return.id in seen:
+            rets = [x for x in h.cfg.nodes if x.kind == "return" and x.id in seen]
+            where = rets[0] if rets else outer[0]
+            run.violation(rule, fi.qual, "a path returns from the helper without walking `%s` although the list may hold contracts (`%s`): for some calls none of the contracts is evaluated" % (list_param, first_line(where.stmt)), fi.loc(where), None, first_line(where.stmt))
+            return None
     target = ("elem", lp)
     inner_head = outer[0]
     if depth == 2:
